@@ -198,6 +198,12 @@ def step (s : DState) (toks : List String) : DState × String :=
   | ["session"] =>
     -- the harness replays the case's lines through the real socket / stdin listeners; no model state
     (s, "session-ok")
+  | ["par", rounds] =>
+    -- real threads setting different knobs of one PRIVATE DynamicConfig concurrently (harness monitor
+    -- `set-not-visible-concurrent`); the case's configs are not touched: constant reply, no model state
+    match rounds.toNat? with
+    | some n => if n == 0 || n > 1000000 then (s, "bad-op") else (s, "ok")
+    | none => (s, "bad-op")
   | ["race", ms] =>
     -- concurrent setters / snapshot readers on the real code; the case then continues from a
     -- deterministic store of the last value (see harness).  The model applies that last store.
